@@ -458,8 +458,12 @@ func RunProperty(opt Options) int {
 			// replay
 			rp := writeReplay(opt.Prop, name, res.Job, v)
 			ok, out := true, ""
-			if !opt.NoReplay {
-				ok, out = NativeReplay(ld, res.Job, v, rp)
+			if !opt.NoReplay && !res.Job.H.PO {
+				if res.Job.H.ReplayInterp {
+					ok, out = InterpReplay(ld, base, res.Job, v, opt.Prop)
+				} else {
+					ok, out = NativeReplay(ld, res.Job, v, rp)
+				}
 				tracesValidated++
 			}
 			if ok {
@@ -487,6 +491,9 @@ func RunProperty(opt Options) int {
 			sort.Strings(lbls)
 			l := lbls[len(lbls)-1]
 			done[res.Job.H.Name] = true
+			if res.Job.H.PO || res.Job.H.ReplayInterp {
+				continue
+			}
 			ok, out := NativeWitness(ld, res.Job, l, res.ReachNondets[l], res.ReachModels[l])
 			if ok {
 				tracesValidated++
